@@ -763,6 +763,24 @@ pub fn normalise(evs: &[Ev]) -> Vec<Ev> {
     out
 }
 
+/// Comparison of an observed event list with the expected one.  The reference writes `InternalError` where a program
+/// executes `ret` with no active call.  C08/C09/C20 only say that the run stops there with a report, so every way of
+/// reporting it is accepted: the emulator's "Internal Error" text (which is C10's listed finding, decided there) or a
+/// run-time error line citing the line (tokenized as UnsupInt), with or without a closing "Exiting".  Everything before
+/// that point must be equal.
+pub fn events_match(exp: &[Ev], got: &[Ev]) -> bool {
+    if exp == got {
+        return true;
+    }
+    if let Some(Ev::InternalError) = exp.last() {
+        let k = exp.len() - 1;
+        if got.len() > k && got[..k] == exp[..k] {
+            return matches!(&got[k..], [Ev::InternalError] | [Ev::InternalError, Ev::Exiting] | [Ev::UnsupInt(_)] | [Ev::UnsupInt(_), Ev::Exiting]);
+        }
+    }
+    false
+}
+
 /// characters that generated programs may write through the console services: none of them
 /// occurs in any message of the CLI, so program output can be told apart from chatter
 pub const MARKERS: &[u8] = b"!#$%&*+=?@^~|";
